@@ -1,5 +1,6 @@
 import AC.BigintsTie
 import AC.Halving
+import AC.CF
 /-! # The translated `Halving.Suggest` / `DeltaLargest.Suggest` equal their models (C08)
 
 Regenerated from alg/heuristic/heuristic.go on every run (`AC/Gen/ProgramFns.lean`). The Go functions
@@ -110,5 +111,43 @@ theorem deltaLargest_tie (f : List Int) (t l : Int) (hl : f.getLast? = some l) :
   · have h1 : ¬ (t - l < 0) := by omega
     have h2 : ¬ (t - l = 0) := by omega
     simp [h, h1, h2]
+
+end AC.HeurTie
+
+namespace AC.HeurTie
+open AC.Gen.Program AC.GoPrim AC.BigPrim P
+
+/-- translated continued-fraction strategies `binary`, `co_binary`, `dichotomic` = `Strategy.K` of the
+    model, for every non-negative n -/
+theorem binaryK_tie (n : Int) : contfracBinaryStrategyK n = some (Strategy.K .binary n) := by
+  simp [contfracBinaryStrategyK, Strategy.K, bRsh, Int.shiftRight_eq_div_pow]
+
+theorem coBinaryK_tie (n : Int) (hn : 0 ≤ n) : contfracCoBinaryStrategyK n = some (Strategy.K .coBinary n) := by
+  unfold contfracCoBinaryStrategyK Strategy.K
+  have hbit : bBit (AC.Gen.Bigint.clone n) 0 = some (if n % 2 = 1 then 1 else 0) := by
+    have h0 : ¬ ((0 : Int) < 0) := by omega
+    have htb : n.toNat.testBit 0 = decide (n % 2 = 1) := by
+      rw [Nat.testBit_zero]
+      have : n.toNat % 2 = 1 ↔ n % 2 = 1 := by omega
+      simp [this]
+    simp only [bBit, h0, if_false, AC.Gen.Bigint.clone, bSet, Int.toNat_zero, htb]
+    by_cases h : n % 2 = 1 <;> simp [h]
+  simp only [hbit, bind, Option.bind]
+  by_cases h : n % 2 = 1
+  · simp [h, bAdd, bRsh, Int.shiftRight_eq_div_pow, AC.Gen.Bigint.clone, bSet, AC.Gen.Bigint.one, bNewInt]
+  · simp [h, bRsh, Int.shiftRight_eq_div_pow, AC.Gen.Bigint.clone, bSet]
+
+theorem dichotomicK_tie (n : Int) (hn : 0 ≤ n) :
+    contfracDichotomicStrategyK n = some (Strategy.K .dichotomic n) := by
+  unfold contfracDichotomicStrategyK Strategy.K
+  have hl : bBitLen n = ((bitLenN n.toNat : Nat) : Int) := bBitLen_nonneg n hn
+  have hu : goUint ((bitLenN n.toNat : Nat) : Int) = some (bitLenN n.toNat) := by
+    have : ¬ (((bitLenN n.toNat : Nat) : Int) < 0) := by omega
+    simp [goUint, this]
+  have hp : ∀ h : Nat, AC.Gen.Bigint.pow2 h = (2 : Int) ^ h := fun h => by
+    simp [AC.Gen.Bigint.pow2, bLsh, AC.Gen.Bigint.one, bNewInt]
+  have hne : (2 : Int) ^ (bitLenN n.toNat / 2) ≠ 0 := by
+    have := two_pow_pos_int (bitLenN n.toNat / 2); omega
+  simp [hl, hu, hp, bDiv, hne]
 
 end AC.HeurTie
